@@ -68,6 +68,14 @@ def run_cases(ctx, cases, official_compile=True, check_spec=True, check_model=Tr
             models = [None] * len(cases)
     records = []
     for c, m in zip(cases, models):
+        if c.get("prelude") is not None:
+            # something else was (unsuccessfully) compiled just before in the same process
+            try:
+                from pyab_experiment.experiment_evaluator import ExperimentEvaluator
+                common.quiet(lambda: ExperimentEvaluator(c["prelude"]))
+            except Exception:  # noqa
+                pass
+            ctx.count("with-invalid-prelude")
         im = common.impl_stages(c["text"], c["envs"])
         prog = c.get("prog")
         rec = {"case": c, "impl": im, "model": m}
